@@ -523,7 +523,27 @@ pub fn gen_cell(g: &mut G<'_>, c: &ColSpec, bin: bool) -> Val {
 
 /// columns for a resultset that will carry rows in binary mode: every column has a value type,
 /// or is nullable
+/// All columns of one type and the same flags: a cell generated for one of them suits every other.
+pub fn uniform_cols(cols: &[ColSpec]) -> bool {
+    cols.windows(2).all(|w| w[0].coltype == w[1].coltype && w[0].flags == w[1].flags)
+}
+
 pub fn gen_cols(g: &mut G<'_>, n: usize, bin: bool) -> Vec<ColSpec> {
+    if g.allow_offers && (2..=12).contains(&n) && g.chance(1, 25) {
+        // columns of one kind (the sets in which short rows are tried: see gen_row)
+        let fv = bin || g.chance(3, 4);
+        let mut c = gen_col(g, fv);
+        if bin && !VALUE_COLTYPES.contains(&c.coltype) {
+            c.flags &= !FLAG_NOT_NULL;
+        }
+        return (0..n)
+            .map(|i| {
+                let mut ci = c.clone();
+                ci.name = format!("{}{}", c.name.chars().take(8).collect::<String>(), i);
+                ci
+            })
+            .collect();
+    }
     (0..n)
         .map(|_| {
             let fv = bin || g.chance(3, 4);
@@ -549,6 +569,15 @@ pub fn gen_row(g: &mut G<'_>, cols: &[ColSpec], bin: bool, last: bool) -> RowPro
         let cells: Vec<Val> = (0..n).map(|_| Val::plain(Base::I32(g.below(100) as i32))).collect();
         let form = *g.pick(&[RowForm::WriteRow, RowForm::WriteRowRef, RowForm::Cols, RowForm::Cols]);
         return RowProg { cells, form, offers: vec![] };
+    }
+    if !last && cols.len() >= 2 && g.allow_offers && uniform_cols(cols) && g.chance(1, 3) {
+        // a short row that the shim tries to end: end_row() has to refuse it; the shim then gives
+        // the row up and goes on with the next one.  (Only with columns of one kind: if the library
+        // does not reset the row, the next row's cells land in shifted columns, and that has to be
+        // no type question - a value of the wrong signedness is a documented panic.)
+        let k = g.usize_in(1, cols.len() - 1);
+        let cells: Vec<Val> = cols[..k].iter().map(|c| gen_cell(g, c, bin)).collect();
+        return RowProg { cells, form: RowForm::ShortEndRow, offers: vec![] };
     }
     if bin && last && g.allow_offers && g.chance(1, 25) {
         // a row the shim gives up before it has written anything: its first value is refused and
@@ -644,8 +673,27 @@ pub fn gen_set(g: &mut G<'_>, bin: bool, end: SetEnd, max_rows: usize) -> Step {
         _ => g.usize_in(0, max_rows),
     };
     let nrows = if n > 100 { nrows.min(2) } else { nrows };
-    let rows = (0..nrows).map(|i| gen_row(g, &cols, bin, i + 1 == nrows)).collect();
+    let mut rows: Vec<RowProg> = (0..nrows).map(|i| gen_row(g, &cols, bin, i + 1 == nrows)).collect();
+    settle_short_rows(&mut rows, cols.len());
     Step::Set { cols, rows, end }
+}
+
+/// A short row ended with end_row() (RowForm::ShortEndRow) leaves the writer in the middle of a row
+/// unless the library resets it: the only thing a shim can sensibly do next is to write the next
+/// row in full, which either works (the library reset the writer) or fails at once (then the shim
+/// gives up).  Short rows that are not followed by such a row are taken out.
+pub fn settle_short_rows(rows: &mut Vec<RowProg>, ncols: usize) {
+    let mut i = 0;
+    while i < rows.len() {
+        if rows[i].form == RowForm::ShortEndRow {
+            let ok_next = rows.get(i + 1).map(|n| matches!(n.form, RowForm::WriteRow | RowForm::WriteRowRef | RowForm::Cols) && n.offers.is_empty() && n.cells.len() == ncols).unwrap_or(false);
+            if !ok_next {
+                rows.remove(i);
+                continue;
+            }
+        }
+        i += 1;
+    }
 }
 
 /// A shape-conforming writer program (every call reports success on a healthy transport).
@@ -672,7 +720,8 @@ pub fn gen_program(g: &mut G<'_>, bin: bool, max_rows: usize) -> Program {
                 let k = g.usize_in(1, all.len());
                 let cols = all[..k].to_vec();
                 let nrows = g.usize_in(0, 2.min(max_rows.max(1)));
-                let rows = (0..nrows).map(|i| gen_row(g, &cols, bin, i + 1 == nrows)).collect();
+                let mut rows: Vec<RowProg> = (0..nrows).map(|i| gen_row(g, &cols, bin, i + 1 == nrows)).collect();
+                settle_short_rows(&mut rows, cols.len());
                 Step::Set { cols, rows, end }
             }
             None => gen_set(g, bin, end, max_rows),
